@@ -314,11 +314,52 @@ func VerifC05_SoundComplete() {
 func VerifC05_HistoryIndependent() {
 	c := VerifNewCommittee()
 	cur := InstanceProgress{Instant: Instant{ID: 7, Round: 1, Phase: PREPARE_PHASE}}
-	// a base shape that is valid without defects
-	var phase Phase
-	var round uint64
-	jkind := 0
-	valueIdx := 1 + sym.Choice("value", 3)
+	phase, round, valueIdx, jkind := verifBaseShape()
+	d1 := sym.Choice("first-defect", dCount)
+	d2 := sym.Choice("second-defect", dCount)
+	if sym.Tier() == 0 && d1 != dNone && d2 != dNone {
+		sym.Assume(false) // quick tier: one of the two messages is the valid twin
+	}
+	m1, _ := verifBuildShape(c, 7, phase, round, valueIdx, jkind, d1, 0)
+	m2, valid2 := verifBuildShape(c, 7, phase, round, valueIdx, jkind, d2, 0)
+	n1, n2 := 4, 16
+	if sym.Bool("tiny-cache") {
+		n1, n2 = 1, 1
+	}
+	fresh := verifValidator(cur, c, n1, n2)
+	warm := verifValidator(cur, c, n1, n2)
+	_, _ = warm.ValidateMessage(context.Background(), m1)
+	_, e1 := fresh.ValidateMessage(context.Background(), m2)
+	_, e2 := warm.ValidateMessage(context.Background(), m2)
+	sym.Cover("compared")
+	sym.Assert(verifErrClass(e1) == verifErrClass(e2), "verdict independent of validation history")
+	sym.Assert((verifErrClass(e2) == 0) == valid2, "warm validator: accepted iff valid")
+}
+
+// ---- exported for the pmsg harness (C13) ----
+
+type VerifValidator interface {
+	MessageValidator
+	PartialMessageValidator
+}
+
+func VerifNewValidator(c *Committee, tinyCache bool) VerifValidator {
+	cur := InstanceProgress{Instant: Instant{ID: 7, Round: 1, Phase: PREPARE_PHASE}}
+	if tinyCache {
+		return verifValidator(cur, c, 1, 1)
+	}
+	return verifValidator(cur, c, 4, 16)
+}
+
+// VerifBuildMessage: symbolic shape x one defect at instance 7 (see verifBuild).
+func VerifBuildMessage(c *Committee) (*GMessage, bool) { return verifBuild(c, 7) }
+
+func VerifErrClass(err error) int { return verifErrClass(err) }
+
+
+// verifBaseShape picks one of the message shapes that are valid when built without defects.
+func verifBaseShape() (phase Phase, round uint64, valueIdx int, jkind int) {
+	valueIdx = 1 + sym.Choice("value", 3)
 	switch sym.Choice("base-shape", 9) {
 	case 0:
 		phase, round = QUALITY_PHASE, 0
@@ -339,23 +380,18 @@ func VerifC05_HistoryIndependent() {
 	default:
 		phase, round, jkind = DECIDE_PHASE, 0, 4
 	}
-	d1 := sym.Choice("first-defect", dCount)
-	d2 := sym.Choice("second-defect", dCount)
-	if sym.Tier() == 0 && d1 != dNone && d2 != dNone {
-		sym.Assume(false) // quick tier: one of the two messages is the valid twin
-	}
-	m1, _ := verifBuildShape(c, 7, phase, round, valueIdx, jkind, d1, 0)
-	m2, valid2 := verifBuildShape(c, 7, phase, round, valueIdx, jkind, d2, 0)
-	n1, n2 := 4, 16
-	if sym.Bool("tiny-cache") {
-		n1, n2 = 1, 1
-	}
-	fresh := verifValidator(cur, c, n1, n2)
-	warm := verifValidator(cur, c, n1, n2)
-	_, _ = warm.ValidateMessage(context.Background(), m1)
-	_, e1 := fresh.ValidateMessage(context.Background(), m2)
-	_, e2 := warm.ValidateMessage(context.Background(), m2)
-	sym.Cover("compared")
-	sym.Assert(verifErrClass(e1) == verifErrClass(e2), "verdict independent of validation history")
-	sym.Assert((verifErrClass(e2) == 0) == valid2, "warm validator: accepted iff valid")
+	return
+}
+
+// VerifBuildFromBase: a valid base shape with one symbolically chosen defect (or none).
+func VerifBuildFromBase(c *Committee) (*GMessage, bool) {
+	phase, round, valueIdx, jkind := verifBaseShape()
+	return verifBuildShape(c, 7, phase, round, valueIdx, jkind, sym.Choice("defect", dCount), 0)
+}
+
+// VerifBuildValid: a valid message of a symbolically chosen base shape.
+func VerifBuildValid(c *Committee) *GMessage {
+	phase, round, valueIdx, jkind := verifBaseShape()
+	m, _ := verifBuildShape(c, 7, phase, round, valueIdx, jkind, dNone, 0)
+	return m
 }
